@@ -23,6 +23,11 @@ def build_list(cls: str, rows: list[dict], how: str = "items"):
         return L([])
     if how == "df":
         return L(pd.DataFrame(rows))
+    if how == "df_extra":
+        # built from a DataFrame that carries a user column besides the declared fields, only partly filled
+        df = pd.DataFrame(rows)
+        df["tag"] = [float("nan") if i % 2 else f"t{i}" for i in range(len(df))]
+        return L(df)
     return L([make_item(cls, r) for r in rows])
 
 
@@ -343,7 +348,22 @@ class Rate(OpSpec):
             m = m or rate_map_eq(dict(cls="x", lists={}, meta=post["meta"]), dict(cls="x", lists={}, meta=em))
         if m:
             out.fail("C13", "I3.map.rate", f"rate({r}): {m}")
-        out.new.append((op["out"], h.kind, res.value, None, h.game, dict(h.meta, copy_of="rate")))
+        # "returns a new chart ... the original is untouched": the result may not be the operand nor share a frame with it
+        # (for any r, r = 1 included), else a later edit of either changes the other
+        def frames(o):
+            ms_ = [o] if h.kind == "map" else list(o.maps)
+            f = set()
+            for mo in ms_:
+                f |= {id(tl.df) for tl in mo.objs.values()}
+                smp = getattr(mo, "samples", None)
+                if smp is not None and hasattr(smp, "df"):
+                    f.add(id(smp.df))
+            return f
+
+        if res.value is h.obj or (frames(res.value) & frames(h.obj)):
+            out.fail("C13", "I3.map.rate.fresh", f"rate({r}) returned {'its operand itself' if res.value is h.obj else 'a chart that shares lists with its operand'}: "
+                                                 "not a new chart, a later edit of the result changes the original")
+        out.new.append((op["out"], h.kind, res.value, [op["h"]] if res.value is h.obj else None, h.game, dict(h.meta, copy_of="rate")))
         out.note = ("rate", r)
         out.probes.append("rate_" + h.game)
         return out
@@ -604,7 +624,19 @@ class StackAssign(OpSpec):
                 else:
                     setattr(s, c, ARITH_PURE[opr](getattr(s, c), v))
             else:
-                key = (_real_mask(s, mask), cols[0] if (len(cols) == 1 and not op.get("cols_as_list")) else cols)
+                mk = _real_mask(s, mask)
+                mf = op.get("mask_form", "series")
+                # the same boolean mask delivered in another shape: a Series selects by LABEL whatever its row order,
+                # a list / ndarray by position
+                if mf == "reversed":
+                    mk = mk[::-1]
+                elif mf == "by_value":
+                    mk = mk.sort_values(kind="stable")
+                elif mf == "list":
+                    mk = [bool(x) for x in mk]
+                elif mf == "ndarray":
+                    mk = mk.to_numpy()
+                key = (mk, cols[0] if (len(cols) == 1 and not op.get("cols_as_list")) else cols)
                 loc = s.loc
                 if opr == "=":
                     loc[key] = v
@@ -636,6 +668,8 @@ class StackAssign(OpSpec):
         out.note = ("stack.assign", tuple(cols), opr, mask is not None)
         if mask is not None:
             out.probes.append("stack_loc_assign")
+            if op.get("mask_form", "series") != "series":
+                out.probes.append("stack_loc_mask_" + op["mask_form"])
         for m, members in ms:
             if any(len(m.objs[k].df) == 0 for k in members):
                 out.probes.append("stack_with_empty_list")
@@ -799,14 +833,18 @@ class Convert(OpSpec):
             out.skipped = True
             return out
         fn = C.convert_merge if cname.endswith(".merge") else C.convert
-        kw = {}
+        kw, pos = {}, ()
         if has_shift and shift is not None:
-            kw["move_right_by"] = shift
+            if op.get("shift_positional"):
+                pos = (shift,)  # convert(chart, 1): the documented second positional parameter
+                out.probes.append("convert_shift_positional")
+            else:
+                kw["move_right_by"] = shift
         rbm = op.get("rbm") if has_rbm else None
         if rbm is not None:
             kw["raise_bad_mode"] = bool(rbm)  # False: a key count the target has no mode for is converted anyway
             out.probes.append("convert_raise_bad_mode_" + str(bool(rbm)))
-        res = lib_call(lambda: fn(h.obj, **kw))
+        res = lib_call(lambda: fn(h.obj, *pos, **kw))
         sup = [_key_count_supported(cname, ma, src_set) for ma in src_maps]
         if not res.ok:
             if has_rbm and rbm is not False and isinstance(res.exc, ValueError) and "supported" in str(res.exc) and any(s is False for s in sup):
